@@ -10,7 +10,8 @@
 From Coq Require Import List NArith ZArith Bool.
 From Dials Require Import Base.Outcome Base.Runes Reflect.Ty Transform.RType Transform.MAlias
   Transform.MFlatten Transform.Manglers Transform.Transformer Transform.TransformerProofs Transform.AliasProofs
-  Transform.WellFormed Transform.CounterpartSpec Transform.SpecProofs Transform.AliasSpecProofs.
+  Transform.WellFormed Transform.CounterpartSpec Transform.SpecProofs Transform.AliasSpecProofs
+  Transform.EnvChainProofs.
 Import ListNotations.
 
 (* an aliased field becomes exactly two fields of the same type: itself and the copy *)
@@ -106,6 +107,17 @@ Theorem alias_chain_is_spec : forall fuel E tags tag te fs nm tt x filled,
   counterpart_spec E [MAlias tags; MFlatten tag 0%N te] (TStruct fs nm) tt filled.
 Proof. exact alias_flatten_chain_spec_l. Qed.
 
+(* the same for the env source's chain [alias; flatten; reformat; tag copy;
+   string cast], for texts that parse at their leaf's type *)
+Theorem alias_env_chain_is_spec : forall fuel E tags tag te tg fs nm tt x filled,
+  Forall (fun m => is_tagstage m = true) tg ->
+  wf_fields fs = true -> simple_fields fs = true -> alias_ok_fields tags fs = true ->
+  translate fuel (MAlias tags :: MFlatten tag 0%N te :: tg ++ [MStrCast]) (TStruct fs nm) = Ok (tt, x) ->
+  Forall2 (text_ok E) filled (aleaves_fields tags fs) ->
+  Some (reverse fuel E (MAlias tags :: MFlatten tag 0%N te :: tg ++ [MStrCast]) x (tt, VStruct filled)) =
+  counterpart_spec E (MAlias tags :: MFlatten tag 0%N te :: tg ++ [MStrCast]) (TStruct fs nm) tt filled.
+Proof. exact env_chain_spec_l. Qed.
+
 (* ... and in the specification an aliased leaf field, at ANY depth (names is
    the path of enclosing field names), is computed from exactly the two
    translated fields named by its primary and its alias-copy path: *)
@@ -130,6 +142,7 @@ Theorem alias_pick_cases : forall n t p a, wf_ty t = true ->
 Proof. exact pick_cases. Qed.
 
 Print Assumptions alias_chain_is_spec.
+Print Assumptions alias_env_chain_is_spec.
 Print Assumptions alias_value_reaches_field.
 Print Assumptions alias_pick_cases.
 Print Assumptions alias_doubles_the_field.
